@@ -916,6 +916,10 @@ func (envs *Manager) TeardownEnvironment(environmentId uid.ID, force bool) error
 		"partition":      environmentId.String(),
 		infologger.Level: infologger.IL_Ops,
 	}).Info("environment teardown complete")
+	// The teardown went through and the environment is gone: a failure of a leave_<state> or DESTROY hook
+	// was logged above and must not make the completed teardown look failed, or the caller skips killing
+	// the tasks that were just released.
+	err = nil
 	return err
 }
 
